@@ -104,7 +104,7 @@ func ruleSelectorCacheDiscipline(c *Ctx) {
 		allInstrs(f, func(_ *ssa.BasicBlock, in ssa.Instruction) {
 			if mu, ok := in.(*ssa.MapUpdate); ok {
 				if ld, ok := mu.Map.(*ssa.UnOp); ok {
-					if g, ok := ld.X.(*ssa.Global); ok && g.Name() == "cache" {
+					if g, ok := ld.X.(*ssa.Global); ok && globalName(g) == "cache" {
 						er = f
 					}
 				}
